@@ -6,8 +6,9 @@ import ObiVerif.Model.Kmer
 A sequence (`*obiseq.BioSequence`) is identified by a natural number (the references are numbered 0, 1, … in
 the order of the slice given to `NewKmerMap`).  The Go map `index map[T][]*BioSequence` is an association
 list k-mer → list of identifiers.  `Query` sorts the collected pointers **by address**: the model is given
-`rank`, the rank of the address of every sequence (data produced by the real run; it only matters when the
-query sequence is itself in the index — see `scanStep`).
+`rank`, the rank of the address of every sequence (data produced by the real run; `Lemmas/KmerIndexLim.lean`
+proves that the answer does not depend on it).  `Query` is modelled **as repaired** by
+`notes/patches/C19-query-self-last` (see `scanResult`).
 -/
 namespace ObiVerif.Kmer
 
@@ -67,8 +68,7 @@ if seq != prevseq {
 n++
 ```
 (`n` restarts at 1 and is incremented for the first element too: a sequence met `c` times is recorded with
-`c + 1`; the query sequence itself is not recorded here — but it is by the final `rep[prevseq] = n` when its
-address is the largest of the matched ones). -/
+`c + 1`; the query sequence itself is not recorded). -/
 def scanStep (qid : Nat) (st : Scan) (seq : Nat) : Scan :=
   let st : Scan :=
     if st.prev ≠ some seq then
@@ -79,17 +79,19 @@ def scanStep (qid : Nat) (st : Scan) (seq : Nat) : Scan :=
     else st
   { st with n := st.n + 1 }
 
-/-- after the loop: `if prevseq != nil { rep[prevseq] = n }` -/
-def scanResult (st : Scan) : List (Nat × Nat) :=
+/-- after the loop: `if prevseq != nil && prevseq != sequence { rep[prevseq] = n }` (**as repaired** by
+`notes/patches/C19-query-self-last`: the unrepaired statement had no `prevseq != sequence` and reported the query
+sequence itself exactly when its address was the largest of the matched ones) -/
+def scanResult (qid : Nat) (st : Scan) : List (Nat × Nat) :=
   match st.prev with
-  | some p => matchSet st.rep p st.n
+  | some p => if p ≠ qid then matchSet st.rep p st.n else st.rep
   | none => st.rep
 
 /-- `KmerMap.Query(sequence)`; `qid` identifies the query sequence (a number that is not a reference when the
 query is not in the index) -/
 def kmQuery (m : KmerMap) (idx : Index) (rank : Nat → Nat) (qid : Nat) (q : Bytes) : List (Nat × Nat) :=
   let seqs := (normalizedKmerSlice m q).flatMap fun kmer => idxGet idx kmer
-  scanResult ((sortRank rank seqs).foldl (scanStep qid) ⟨none, 0, []⟩)
+  scanResult qid ((sortRank rank seqs).foldl (scanStep qid) ⟨none, 0, []⟩)
 
 /-- `KmerMatch.FilterMinCount(mincount)` -/
 def filterMinCount (rep : List (Nat × Nat)) (mincount : Int) : List (Nat × Nat) :=
